@@ -484,5 +484,79 @@ def tv_driver(case, api):
     return {"id": case["id"], "obs": obs}
 
 
+# ---- Part D: the KIND of the value a computed key evaluates to x every site that turns a key into a property name ----
+# cell = {id, form: "key", kind: <key kind>, w: <write site>, sp: "var" | "inline", ret: <second step>, name: <canonical
+# property name, computed by the specification>}.  KEY_EXPR renders a key kind as a JavaScript expression; nothing here
+# converts a key to a name.
+KEY_EXPR = {"str": "'a'", "empty": "''", "numstr": "'1'", "str01": "'01'", "strneg0": "'-0'", "int": "1", "zero": "0",
+            "negzero": "-0", "neg": "-1", "frac": "1.5", "floatint": "2 / 2", "bigint": "4294967296", "nan": "NaN",
+            "inf": "Infinity", "ninf": "-Infinity", "true": "true", "false": "false", "cmp": "1 < 2", "null": "null",
+            "undef": "undefined", "arr0": "[]", "arr1": "[1]", "arrs": "['a']", "arr2": "[1, 2]", "obj": "({})",
+            "objts": "({toString: function(){ return 'a'; }})"}
+KEY_DESC = "{value: %d, writable: true, enumerable: true, configurable: true}"
+KEY_WRITE = {"set": "o[%(X)s] = 1", "lit": "o = {z: 0, [%(X)s]: 1}",
+             "def": "Object.defineProperty(o, %(X)s, " + KEY_DESC % 1 + ")",
+             "litget": "o = {z: 0, get [%(X)s](){ return 7; }}",
+             "defget": "Object.defineProperty(o, %(X)s, {get: function(){ return 7; }, enumerable: true, configurable: true})"}
+KEY_SECOND = {"none": "", "set": "o[%(X)s] = 5", "setS": "o[S] = 5", "inc": "o[%(X)s]++", "add": "o[%(X)s] += 2",
+              "del": "delete o[%(X)s]", "delS": "delete o[S]",
+              "def": "Object.defineProperty(o, %(X)s, " + KEY_DESC % 6 + ")", "defS": "Object.defineProperty(o, S, " + KEY_DESC % 6 + ")",
+              "qset": "q[%(X)s] = 4", "qdel": "delete q[%(X)s]"}
+KEY_GD = "(function(){ var d = Object.getOwnPropertyDescriptor(o, %s); return d === undefined ? 'nod' : (d.get !== undefined ? 'acc' : d.value); })()"
+# the battery (same names and order as KBattery in spec/C08.tla, without "out"): K the variable, I the expression in place
+KEY_BATTERY = [("rdK", "o[K]"), ("rdI", "o[%(I)s]"), ("rdS", "o[S]"), ("inK", "K in o"), ("inI", "(%(I)s) in o"), ("inS", "S in o"),
+               ("ownK", "Object.prototype.hasOwnProperty.call(o, K)"), ("ownI", "Object.prototype.hasOwnProperty.call(o, %(I)s)"),
+               ("ownM", "o.hasOwnProperty(K)"), ("ownS", "Object.prototype.hasOwnProperty.call(o, S)"),
+               ("gdK", KEY_GD % "K"), ("gdS", KEY_GD % "S"), ("keys", "Object.keys(o)"), ("forin", "__forin(o)"),
+               ("vals", "Object.values(o)"), ("ents", "Object.entries(o)"), ("z", "o.z"), ("qrdK", "q[K]"), ("qinK", "K in q"),
+               ("qownK", "Object.prototype.hasOwnProperty.call(q, K)"), ("qkeys", "Object.keys(q)")]
+KEY_LISTS = ("keys", "forin", "vals", "ents", "qkeys")
+
+
+def key_driver(case, api):
+    from microjs import values as V
+    kk, w, sp, sec, name = case["kind"], case["w"], case["sp"], case["ret"], case["name"]
+    expr = KEY_EXPR[kk]
+    sub = {"X": "K" if sp == "var" else expr, "I": expr}
+    ctx = api.new_context(time_limit=5.0)
+    enc = Enc(V)
+    got = []
+    ctx.set("__emit", lambda *a: (got.append(a), None)[1])
+    ctx.set("S", name)
+    lines = [CLS, "function __forin(x){ var r = []; for (var k in x) { r.push(k); } return r; }",
+             "var K = %s; var o = {z: 0}; var q;" % expr,
+             "function __kb(out){ var r = [];"]
+    for _, src in KEY_BATTERY:
+        lines.append(" try { r.push(['v', %s]); } catch (e) { r.push(['t', __cls(e)]); }" % (src % sub))
+    lines.append(" __emit(out, r); }")
+    lines.append("var out = 'ok'; try { %s; } catch (e) { out = '!' + __cls(e); }" % (KEY_WRITE[w] % sub))
+    lines.append("try { q = Object.create(o); } catch (e) { out = out + '/create:!' + __cls(e); }")
+    lines.append("__kb(out);")
+    if sec != "none":
+        lines.append("out = 'ok'; try { %s; } catch (e) { out = '!' + __cls(e); }" % (KEY_SECOND[sec] % sub))
+        lines.append("__kb(out);")
+    o = api.eval_outcome(ctx, "\n".join(lines) + "\n'done'", wall=20.0, cap=2_000_000)
+    nst = 1 if sec == "none" else 2
+    if o["o"] == "host":                      # a foreign Python exception escaped from the engine: class only
+        return {"id": case["id"], "obs": {"b1": {"out": "host:%s" % o.get("type")}}}
+    if outcome_str(o) != "done" or len(got) != nst:
+        return {"id": case["id"], "obs": {"b1": {"out": "fail:" + outcome_str(o)}}}
+    obs = {}
+    for st, (out, arr) in enumerate(got, 1):
+        b = {"out": str(out)}
+        for (a, _), pair in zip(KEY_BATTERY, arr._elements):
+            tag, val = pair._elements[0], pair._elements[1]
+            if tag == "t":
+                b[a] = "!" + str(val)
+            elif a in KEY_LISTS:
+                b[a] = "|".join(enc.enc(e) for e in val._elements) if isinstance(val, V.JSArray) else "notalist:" + enc.enc(val)
+            else:
+                b[a] = enc.enc(val)
+        obs["b%d" % st] = b
+    return {"id": case["id"], "obs": obs}
+
+
 def cell_driver(case, api):
+    if case["form"] == "key":
+        return key_driver(case, api)
     return tv_driver(case, api) if case["form"] == "tv" else call_driver(case, api)
